@@ -844,8 +844,23 @@ class Engine:
                             callee_body = cb_
                             name = cb_.path
                             break
-            if callee_body is None and self.unique_impls and (fn.get('targs') or []) and '::' in declared and \
+            if callee_body is None and args and (fn.get('targs') or []) and '::' in declared and \
                     fr.body.crate.types[fn['targs'][0]].get('k') == 'param' and declared.startswith(('clock_bound', 'clockbound')):
+                # a trait method on a type parameter whose receiver *value* is known here (a struct literal captured by a
+                # closure, `worker.run(ctx)`): the impl for the type of that value
+                rv_ = args[0]
+                if rv_[0] == 'ref':
+                    rv_ = self.load(st, rv_[1])
+                if rv_[0] == 'agg' and rv_[2] is not None and isinstance(rv_[1], str) and not rv_[1].startswith(('closure:', 'std::')):
+                    trait_path, meth = declared.rsplit('::', 1)
+                    for cb_ in self.facts.bodies():
+                        if cb_.name == meth and cb_.impl_trait == trait_path and cb_.defkind != 'Closure' and \
+                                (cb_.impl_self or '').split('<')[0] == rv_[1].split('<')[0]:
+                            callee_body = cb_
+                            name = cb_.path
+                            break
+            if callee_body is None and self.unique_impls and (fn.get('targs') or []) and '::' in declared and \
+                    fr.body.crate.types[fn['targs'][0]].get('k') == 'param' and declared.startswith(fr.body.crate.name + '::'):
                 # a workspace trait method called on a type parameter that is not known here: when the trait has exactly
                 # one implementation in the (non-test) build, that is the only type the parameter can stand for
                 trait_path, meth = declared.rsplit('::', 1)
